@@ -1,45 +1,56 @@
 # orchestrator configuration of the C17 check (loaded by tools/props.py)
 SPEC = dict(
     pkg="./harness/c17",
+    instrument=["./p2p/host/observedaddrs", "./p2p/host/eventbus"],
     level="exploration",
-    level_text=("seeded search over histories of connections, identify-completed events and disconnects fed to the real "
-                "observedaddrs.Manager (event handler + worker goroutines, real event bus) inside a synctest bubble; after "
-                "every event (paced stratum) or burst (burst stratum, optionally with the worker held so that the queue "
-                "overflows) Addrs(min) and AddrsFor(local) are compared with a reference count recomputed from the history "
-                "of currently open connections. Sampling, not proof."),
+    level_text=("seeded search over histories x schedules: connections, identify-completed events and disconnects fed to the "
+                "real (instrumented) observedaddrs.Manager and event bus under a scheduler that owns every lock, channel "
+                "operation and select of both packages; after every event (paced stratum), burst (burst stratum, optionally "
+                "with the worker held so that the queue overflows) or identify-versus-close race issued from two tasks (race "
+                "stratum) Addrs(min) and AddrsFor(local) are compared with a reference count recomputed from the history of "
+                "currently open connections. Sampling, not proof."),
     level_note=("trusted: testing/synctest quiescence detection, go-multiaddr parsing/printing, the reference model in the "
                 "harness (written from the property statement; readings taken where the statement is silent are listed at "
-                "the top of harness/c17/sim_test.go). Operation-level: the Manager's goroutines are not scheduled by the "
-                "simulator, the history is observed at quiescent instants only; in the burst stratum only the subset "
-                "relation against an upper-bound model is asserted because the worker queue may drop observations."),
-    technique="deterministic simulation: operation-level histories over stub network/connections, reference-count oracle",
+                "the top of harness/c17/sim_test.go), the overlay rewrite (validated by the packages' own tests through "
+                "./check overlaytest C17). Equality is asserted at quiescent instants of the paced stratum only; in the "
+                "burst and race strata only the subset relation against an upper-bound model is asserted because the "
+                "worker queue may drop observations."),
+    technique=("deterministic simulation: seeded lock/channel-level scheduler over instrumented observedaddrs + eventbus, "
+               "stub network/connections, reference-count oracle"),
     design_ref="DESIGN.md section 6 (C17)",
     quick_s=30, thorough_s=300,
-    rule=("one run = one tape: stratum (paced | burst), ActivationThresh in {4,2,3,1}, 1-11 listen addresses drawn from "
+    rule=("one run = one tape: stratum (paced | burst | race), ActivationThresh in {4,2,3,1}, 1-11 listen addresses drawn from "
           "TCP/WS/QUIC/WebTransport on IPv4 and IPv6 (QUIC+WebTransport and TCP+WS sharing a thin waist, unspecified "
           "listeners with their interface resolution), then 1-70 operations: a connection arrives at a listen address / "
           "another port / another IP or is dialled (ephemeral port or listen socket) from a population of 6 IPv4 addresses "
           "x 2 ports and 4 IPv6 /56s x 2 subnets x 2 hosts; identify completes on an open or an already closed connection "
           "with an observed address of class consistent | sibling transport of the same waist | loopback | NAT64 | relayed "
           "| tcp<->udp inconsistent | ip4<->ip6 inconsistent | nil over 3 external IPs x 4 ports; a wave of 2-5 peers "
-          "reporting one address; disconnect; a virtual minute (NAT-type ticker). Epilogue: every connection closes and "
+          "reporting one address; disconnect; a virtual minute (NAT-type ticker); in the race stratum episodes of 1-3 "
+          "(identify task, closer task) pairs on one connection each, the pair's address first brought to threshold-1 "
+          "live observer groups, optionally a concurrent reader task; plus a seeded schedule that decides every lock "
+          "acquisition, channel operation, select and (burst/race) stub callback of the Manager. Epilogue: every connection closes and "
           "nothing may remain reported. non-trivial = some address reached the activation threshold and at least one "
           "counted report was withdrawn (close or replacement); distinct = distinct (operation sequence, every "
-          "Addrs/AddrsFor answer) in the paced stratum, (operation sequence, model counts) in the burst stratum"),
+          "Addrs/AddrsFor answer) in the paced stratum, (operation sequence, model counts) in the burst and race strata"),
     probes=["address-activated", "address-deactivated", "more-than-3-candidates", "tie-at-cap", "duplicate-observer-group",
             "same-v4-ip-twice", "same-v6-56-twice", "shared-thin-waist-pooled", "sibling-transport-report",
             "report-replaced", "report-repeated", "uncountable-report-after-countable", "conn-not-at-listen-address",
             "report-on-conn-not-at-listen-address",
-            "late-identify-on-closed-conn", "close-right-after-identify", "nat-type-tick",
+            "late-identify-on-closed-conn", "close-right-after-identify", "identify-vs-close-race",
+            "race-at-threshold-minus-1", "nat-type-tick",
             "uncountable-loopback", "uncountable-nat64", "uncountable-relayed", "uncountable-inconsistent-transport",
             "uncountable-inconsistent-ipversion", "uncountable-nil"],
-    real=["p2p/host/observedaddrs.Manager via NewManager/Start/Close (event handler, worker, NAT-type ticker on the bubble clock)",
-          "p2p/host/eventbus (EvtPeerIdentificationCompleted subscription, stateful NAT emitter)"],
+    real=["p2p/host/observedaddrs.Manager via NewManager/Start/Close (event handler, worker, NAT-type ticker on the bubble clock; "
+          "instrumented: sync->simsync, go->simrt.Go, channel ops, select, map ranges)",
+          "p2p/host/eventbus (EvtPeerIdentificationCompleted subscription, stateful NAT emitter; instrumented likewise)"],
     stubs=["network.Network: ListenAddresses/InterfaceListenAddresses (fixed per run), Notify/StopNotify registry; "
-           "Disconnected is delivered synchronously after the connection is marked closed",
+           "Disconnected is delivered synchronously (by the closing task) after the connection is marked closed; every "
+           "callback is a scheduling point in the burst and race strata",
            "network.Conn: LocalMultiaddr/RemoteMultiaddr/IsClosed only; a 'plug' connection whose LocalMultiaddr blocks "
            "holds the worker goroutine to fill the observation queue (burst stratum)"],
     assume=["synctest fake clock and quiescence detection (Go 1.25.7)",
+            "the overlay rewrite preserves behaviour (checked by ./check overlaytest C17)",
             "the swarm marks a connection closed before it delivers Disconnected (as swarm.Conn.doClose does)",
             "listen addresses do not change during a run"],
 )
